@@ -77,13 +77,16 @@ Fixpoint nrun (st : nst) (a : sacc) (idx : nat) (bs : bytes) : option sacc :=
     end
   end.
 
-(* bytes.ParseUint / ParseInt: uint arithmetic wraps modulo 2^64 and is not checked *)
+(* bytes.ParseUint / ParseInt: a value that does not fit a uint is an error (since the fix c58a671;
+   before it the arithmetic wrapped modulo 2^64): the test is  u > (MaxUint - d) / 10  before  u*10 + d *)
 Definition two64 : N := 18446744073709551616%N.
 Definition max_int : N := 9223372036854775807%N.
 Fixpoint parse_uint_aux (u : N) (bs : bytes) : option N :=
   match bs with
   | [] => Some u
-  | c :: r => if is_digit c then parse_uint_aux (N.modulo (u * 10 + dig c) two64) r else None
+  | c :: r => if is_digit c
+              then if N.ltb ((two64 - 1 - dig c) / 10) u then None else parse_uint_aux (u * 10 + dig c) r
+              else None
   end.
 Definition parse_uint (bs : bytes) : option N :=
   match bs with [] => None | _ => parse_uint_aux 0 bs end.
